@@ -300,11 +300,18 @@ func (ex *Exec) havocModifies(st *State, c *FuncContract, env *Env, fr *Frame) {
 		}
 		return
 	}
-	for _, mt := range c.Modifies {
+	ex.havocTargets(st, c.Modifies, env, fr, c.Key)
+	nw := Fresh("wm.call", IntSort)
+	ex.assume(st.pc, Ge(nw, st.wm))
+	st.wm = nw
+}
+
+func (ex *Exec) havocTargets(st *State, mods []ModTarget, env *Env, fr *Frame, owner string) {
+	for _, mt := range mods {
 		switch {
 		case mt.All:
 			ws := newWriteSet()
-			ws.setAll("modifies * of " + c.Key)
+			ws.setAll("modifies * of " + owner)
 			ex.havoc(st, ws, "mod", fr)
 		case mt.Key != "":
 			srt, ok := keySortReg[mt.Key]
@@ -313,26 +320,23 @@ func (ex *Exec) havocModifies(st *State, c *FuncContract, env *Env, fr *Frame) {
 					srt = ex.eng.ghostSort(g)
 					regKey(mt.Key, srt)
 				} else {
-					ex.warn("modifies key %s of %s: unknown heap key", mt.Key, c.Key)
+					ex.warn("modifies key %s of %s: unknown heap key", mt.Key, owner)
 					continue
 				}
 			}
 			st.heap.m[mt.Key] = Fresh(mt.Key+".mod", srt)
 		default:
-			ex.havocTarget(st, mt, env, c)
+			ex.havocTarget(st, mt, env, owner)
 		}
 	}
-	nw := Fresh("wm.call", IntSort)
-	ex.assume(st.pc, Ge(nw, st.wm))
-	st.wm = nw
 }
 
 // havocTarget: x.f (one field of one object), x (all fields of *x, or the map x), x[*] (elements of slice x).
-func (ex *Exec) havocTarget(st *State, mt ModTarget, env *Env, c *FuncContract) {
+func (ex *Exec) havocTarget(st *State, mt ModTarget, env *Env, owner string) {
 	defer func() {
 		if r := recover(); r != nil {
 			if ce, ok := r.(compileErr); ok {
-				ex.eng.bindingErrors = append(ex.eng.bindingErrors, fmt.Sprintf("%s: modifies %s: %s", c.Key, mt.Text, ce.msg))
+				ex.eng.bindingErrors = append(ex.eng.bindingErrors, fmt.Sprintf("%s: modifies %s: %s", owner, mt.Text, ce.msg))
 				return
 			}
 			panic(r)
@@ -348,7 +352,9 @@ func (ex *Exec) havocTarget(st *State, mt ModTarget, env *Env, c *FuncContract) 
 		for _, k := range elemKeys(sl.Elem()) {
 			srt := keySortReg[k]
 			arr := st.heap.Get(k, srt)
-			st.heap.m[k] = Store(arr, x.C[0], Fresh(k+".mod", srt.Elem))
+			inner := Fresh(k+".mod", srt.Elem)
+			regHeapConst(inner, k, st.wm)
+			st.heap.m[k] = Store(arr, x.C[0], inner)
 		}
 		return
 	}
@@ -373,7 +379,11 @@ func (ex *Exec) havocTarget(st *State, mt ModTarget, env *Env, c *FuncContract) 
 			n := len(layout(sst.Field(idx).Type()))
 			for _, k := range keys[off : off+n] {
 				srt := keySortReg[k]
-				st.heap.m[k] = Store(st.heap.Get(k, srt), x.one(), Fresh(k+".mod", srt.Elem))
+				fv := Fresh(k+".mod", srt.Elem)
+				if c, ok := keyCompReg[k]; ok {
+					ex.assume(st.pc, scalarFact(c, fv, st.wm))
+				}
+				st.heap.m[k] = Store(st.heap.Get(k, srt), x.one(), fv)
 			}
 			return
 		}
@@ -540,7 +550,7 @@ func (ex *Exec) builtin(fr *Frame, st *State, b *ssa.Builtin, c *ssa.CallCommon,
 		case *types.Slice:
 			return Value{T: types.Typ[types.Int], C: []*Term{x.C[2]}}
 		case *types.Basic:
-			t := UF("str.len", IntSort, x.one())
+			t := UF("str_len", IntSort, x.one())
 			ex.assume(st.pc, And(Ge(t, IntLit(0)), Le(t, BigLit(maxInt64))))
 			return Value{T: types.Typ[types.Int], C: []*Term{t}}
 		case *types.Map:
@@ -622,7 +632,7 @@ func (ex *Exec) appendBuiltin(fr *Frame, st *State, c *ssa.CallCommon, args []Va
 	tIsString := false
 	if _, isStr := t.T.Underlying().(*types.Basic); isStr {
 		tIsString = true
-		tlen = UF("str.len", IntSort, t.one())
+		tlen = UF("str_len", IntSort, t.one())
 	} else {
 		tlen = t.C[2]
 	}
@@ -650,16 +660,16 @@ func (ex *Exec) appendBuiltin(fr *Frame, st *State, c *ssa.CallCommon, args []Va
 			// in-place array
 			ip := srcArr
 			for q := int64(0); q < small; q++ {
-				ip = Store(ip, Add(Add(soff, slen), IntLit(q)), Select(tarr, Add(t.C[1], IntLit(q))))
+				ip = Store(ip, Idx(soff, Add(slen, IntLit(q))), Select(tarr, Idx(t.C[1], IntLit(q))))
 			}
 			// fresh array: prefix copied
 			fa := Fresh("append.new", srt.Elem)
 			i := BoundVar("i", IntSort)
-			body := Implies(And(Le(IntLit(0), i), Lt(i, slen)), Eq(Select(fa, i), Select(srcArr, Add(soff, i))))
+			body := Implies(And(Le(IntLit(0), i), Lt(i, slen)), Eq(Select(fa, i), Select(srcArr, Idx(soff, i))))
 			ex.assume(st.pc, Forall([]*Term{i}, body, [][]*Term{{Select(fa, i)}}))
 			fr2 := fa
 			for q := int64(0); q < small; q++ {
-				fr2 = Store(fr2, Add(slen, IntLit(q)), Select(tarr, Add(t.C[1], IntLit(q))))
+				fr2 = Store(fr2, Add(slen, IntLit(q)), Select(tarr, Idx(t.C[1], IntLit(q))))
 			}
 			st.heap.m[k] = Store(arr, rbase, Ite(inplace, ip, fr2))
 			continue
@@ -667,17 +677,17 @@ func (ex *Exec) appendBuiltin(fr *Frame, st *State, c *ssa.CallCommon, args []Va
 		// general case: result contents described by quantified facts
 		na := Fresh("append.arr", srt.Elem)
 		i := BoundVar("i", IntSort)
-		pre := Implies(And(Le(IntLit(0), i), Lt(i, slen)), Eq(Select(na, Add(roff, i)), Select(srcArr, Add(soff, i))))
-		ex.assume(st.pc, Forall([]*Term{i}, pre, [][]*Term{{Select(na, Add(roff, i))}}))
+		pre := Implies(And(Le(IntLit(0), i), Lt(i, slen)), Eq(Select(na, Idx(roff, i)), Select(srcArr, Idx(soff, i))))
+		ex.assume(st.pc, Forall([]*Term{i}, pre, [][]*Term{{Select(na, Idx(roff, i))}}))
 		if !tIsString {
 			tarr := Select(arr, t.C[0])
 			q := BoundVar("q", IntSort)
-			suf := Implies(And(Le(IntLit(0), q), Lt(q, tlen)), Eq(Select(na, Add(Add(roff, slen), q)), Select(tarr, Add(t.C[1], q))))
-			ex.assume(st.pc, Forall([]*Term{q}, suf, [][]*Term{{Select(na, Add(Add(roff, slen), q))}}))
+			suf := Implies(And(Le(IntLit(0), q), Lt(q, tlen)), Eq(Select(na, Idx(roff, Add(slen, q))), Select(tarr, Idx(t.C[1], q))))
+			ex.assume(st.pc, Forall([]*Term{q}, suf, [][]*Term{{Select(na, Idx(roff, Add(slen, q)))}}))
 		} else if el[j].Sort == IntSort {
 			q := BoundVar("q", IntSort)
-			suf := Implies(And(Le(IntLit(0), q), Lt(q, tlen)), Eq(Select(na, Add(Add(roff, slen), q)), UF("str.at", IntSort, t.one(), q)))
-			ex.assume(st.pc, Forall([]*Term{q}, suf, [][]*Term{{Select(na, Add(Add(roff, slen), q))}}))
+			suf := Implies(And(Le(IntLit(0), q), Lt(q, tlen)), Eq(Select(na, Idx(roff, Add(slen, q))), UF("str_at", IntSort, t.one(), q)))
+			ex.assume(st.pc, Forall([]*Term{q}, suf, [][]*Term{{Select(na, Idx(roff, Add(slen, q)))}}))
 		}
 		// in place: everything outside [off+len, off+newlen) keeps its old contents
 		w := BoundVar("w", IntSort)
@@ -697,7 +707,7 @@ func (ex *Exec) copyBuiltin(fr *Frame, st *State, c *ssa.CallCommon, args []Valu
 	var slen *Term
 	srcIsString := isString(s.T)
 	if srcIsString {
-		slen = UF("str.len", IntSort, s.one())
+		slen = UF("str_len", IntSort, s.one())
 	} else {
 		slen = s.C[2]
 	}
@@ -710,11 +720,11 @@ func (ex *Exec) copyBuiltin(fr *Frame, st *State, c *ssa.CallCommon, args []Valu
 		i := BoundVar("i", IntSort)
 		if !srcIsString {
 			sarr := Select(arr, s.C[0])
-			body := Implies(And(Le(IntLit(0), i), Lt(i, n)), Eq(Select(na, Add(d.C[1], i)), Select(sarr, Add(s.C[1], i))))
-			ex.assume(st.pc, Forall([]*Term{i}, body, [][]*Term{{Select(na, Add(d.C[1], i))}}))
+			body := Implies(And(Le(IntLit(0), i), Lt(i, n)), Eq(Select(na, Idx(d.C[1], i)), Select(sarr, Idx(s.C[1], i))))
+			ex.assume(st.pc, Forall([]*Term{i}, body, [][]*Term{{Select(na, Idx(d.C[1], i))}}))
 		} else if layout(sl.Elem())[j].Sort == IntSort {
-			body := Implies(And(Le(IntLit(0), i), Lt(i, n)), Eq(Select(na, Add(d.C[1], i)), UF("str.at", IntSort, s.one(), i)))
-			ex.assume(st.pc, Forall([]*Term{i}, body, [][]*Term{{Select(na, Add(d.C[1], i))}}))
+			body := Implies(And(Le(IntLit(0), i), Lt(i, n)), Eq(Select(na, Idx(d.C[1], i)), UF("str_at", IntSort, s.one(), i)))
+			ex.assume(st.pc, Forall([]*Term{i}, body, [][]*Term{{Select(na, Idx(d.C[1], i))}}))
 		}
 		w := BoundVar("w", IntSort)
 		keep := Implies(Or(Lt(w, d.C[1]), Ge(w, Add(d.C[1], n))), Eq(Select(na, w), Select(darr, w)))
